@@ -385,6 +385,20 @@ def warp_detour(prog: Program) -> List[Instance]:
         if not any(s_g in names_in(v) for _, v in org.defs.get(tr.id, []) if not isinstance(v, ast.Constant)):
             bad.append("src_transform")
     out.append(Instance("R-EXHAUST", f"{f.qual}#geobox-sides", OK if not bad else BAD, "source CRS/transform come from the source geobox, destination CRS/transform from the destination geobox" if not bad else f"{bad} taken from the wrong geobox", f.where(call[0])))
+    # a detour that changes pixel VALUES (bool stretched to {0, 255}) must map the nodata values the same way:
+    # the names handed to GDAL as src_nodata / dst_nodata are re-bound after the conversion
+    stretches = [n for nf in list(f.nested.values()) + [f] for n in walk_own(nf.node) if isinstance(n, ast.Call) and call_name(n) == "where" and len(n.args) == 3]
+    if stretches:
+        rd = ReachingDefs(f.node)
+        for kw in ("src_nodata", "dst_nodata"):
+            v = kws.get(kw)
+            if not isinstance(v, ast.Name):
+                continue
+            defs = rd.reaching(enclosing_stmt(call[0]), v.id)
+            rebound = any(k != "param" for (_n, _s, _v, k) in defs)
+            out.append(Instance("R-EXHAUST", f"{f.qual}#detour-nodata:{kw}", OK if rebound else BAD,
+                                f"`{v.id}` is mapped into the stretched value domain before the warp" if rebound else
+                                f"bool pixels are stretched ({short(stretches[0], 40)}) but `{kw}={v.id}` still holds the caller's value in the {{0, 1}} domain: the warp's fill is lost in the copy-back (dst_nodata=True comes out False)", f.where(call[0])))
     return out
 
 
